@@ -47,6 +47,7 @@ package scope
 //@ func (*Scope).appendError [C11 C12]
 //@   requires scp.ContextScope != nil && scp.EventScope != nil
 //@   modifies *
+//@   keeps stable
 //@   loop 1 invariant 0 <= i && i <= $i + 1 && -1 <= $i && $i < len(errs) && len(filtred) == len(errs)
 //@   loop 1 invariant forall(k, 0 <= k && k < i ==> filtred[k] != nil)
 //@   loop 1 step $i == prev($i) + 1 && (errs[$i] != nil ==> i == prev(i) + 1 && filtred[prev(i)] == errs[$i]) && (errs[$i] == nil ==> i == prev(i))
@@ -58,6 +59,7 @@ package scope
 // Wait returns the scope's error state after every registered task and child is done
 //@ func (*Scope).Wait [C11]
 //@   requires scp.ContextScope != nil
+//@   keeps stable
 //@   trace (*WaitGroup).Wait as WGWAIT
 //@   trace (*Scope).Err as ERR bind e
 //@   trace_ensures true : ^WGWAIT ERR $
